@@ -29,6 +29,7 @@ type gReq struct {
 	header  []kv
 	body    string
 	lenMode string // "" exact | missing | negative | nonnumeric | plus1
+	rawq    string // appended to the query string as it is (not escaped)
 }
 
 func (g gReq) clone() gReq {
@@ -76,6 +77,8 @@ func (g gReq) apply(d deviation) gReq {
 		g.body = d.val
 	case d.slot == "len":
 		g.lenMode = d.val
+	case d.slot == "rawq":
+		g.rawq = d.val
 	case strings.HasPrefix(d.slot, "q:"):
 		if d.val == "\x01" {
 			g.query = delKV(g.query, d.slot[2:])
@@ -116,6 +119,9 @@ func (g gReq) build(vars map[string]string) drv.Req {
 		} else {
 			qs = append(qs, drv.Q(e.k, subst(e.v, vars)))
 		}
+	}
+	if g.rawq != "" {
+		qs = append(qs, g.rawq)
 	}
 	r.Query = strings.Join(qs, "&")
 	for _, e := range g.header {
@@ -169,6 +175,9 @@ func (g gReq) String() string {
 	}
 	if g.lenMode != "" {
 		s += " len=" + g.lenMode
+	}
+	if g.rawq != "" {
+		s += " rawq=" + g.rawq
 	}
 	return s
 }
@@ -275,6 +284,7 @@ func c09Menu() []deviation {
 	add("h:X-Amz-Copy-Source", "nosuch", "/", "b", "/aaa/k?versionId=x", "%zz", "/aaa/k", "/aaa", "aaa/k", "/nosuch/k", "/aaa/%zz", "/aaa/nokey", "/bbb/u", "", "/aaa/k2", "//")
 	add("h:Content-MD5", "XrY7u+Ae7tCTyyK7j1rNww==", "!!!", "", "AAAA")
 	add("len", "missing", "negative", "nonnumeric", "plus1", "huge")
+	add("rawq", "x-id=%zz", "%", "a=1;b=2", "=&&=")
 	add("h:X-Amz-Content-Sha256", "STREAMING-AWS4-HMAC-SHA256-PAYLOAD", "UNSIGNED-PAYLOAD")
 	add("h:X-Amz-Decoded-Content-Length", "5", "x", "-1", "\x01", "6")
 	add("h:If-None-Match", "$ETAGK", "*", "\"x\"")
@@ -506,7 +516,7 @@ func c09Plans(c *engine.Ctx) []c09Plan {
 // relevant slots for 2-deviation pairs: slots the base request uses plus the routing-relevant ones.
 func relevantSlot(base gReq, slot string) bool {
 	switch slot {
-	case "method", "path", "q:uploadId", "q:versionId", "q:uploads", "q:versions", "q:versioning", "q:delete", "q:location", "len", "body", "h:X-Amz-Copy-Source", "h:Expect":
+	case "method", "path", "q:uploadId", "q:versionId", "q:uploads", "q:versions", "q:versioning", "q:delete", "q:location", "len", "rawq", "body", "h:X-Amz-Copy-Source", "h:Expect":
 		return true
 	}
 	if strings.HasPrefix(slot, "q:") {
@@ -538,7 +548,7 @@ func doWithWatchdog(w *drv.World, r drv.Req) (drv.Resp, bool) {
 }
 
 func runC09(c *engine.Ctx) {
-	c.Rule = "case = (backend/options, reachable start state, base request of one of 30 routes (two of them announced with Expect: 100-continue), <= k deviations where a deviation sets one slot (method, path shape, query parameter, header, declared length, body) to a value of the finite menu); oracle: no panic, the call returns, response is a success or an error status whose body is empty or an <Error><Code> document with the status documented for that code, and afterwards a canary sequence (put/get/list/delete on the same and on another bucket) behaves and untouched data is unchanged; plus, on the fs backends, every route x state with exactly one failing storage operation at every position (no panic, returns, well-formed error, canary afterwards); distinct_nontrivial = distinct (status, code) outcomes x route"
+	c.Rule = "case = (backend/options, reachable start state, base request of one of 30 routes (two of them announced with Expect: 100-continue), <= k deviations where a deviation sets one slot (method, path shape, query parameter, raw query text, header, declared length, body) to a value of the finite menu); oracle: no panic, the call returns, response is a success or an error status whose body is empty or an <Error><Code> document with the status documented for that code, and afterwards a canary sequence (put/get/list/delete on the same and on another bucket) behaves and untouched data is unchanged; plus, on the fs backends, every route x state with exactly one failing storage operation at every position (no panic, returns, well-formed error, canary afterwards); distinct_nontrivial = distinct (status, code) outcomes x route"
 	c.Assumptions = append(c.Assumptions, "deviation bound k=1 on every route and state (quick) / k=2 on the routing-relevant and route-specific slots (thorough, and quick on the memory backend's stateful routes)", "a 60 s watchdog per request stands in for 'never blocks' (normal latency is ~10 us)")
 	routes := c09Routes()
 	menu := c09Menu()
